@@ -78,6 +78,10 @@ func (p *Proof) IsValid(public Public) bool {
 	if !arith.IsValidNatModN(public.Prover.N(), p.W) {
 		return false
 	}
+	// Z1 is encrypted below: it must lie in the plaintext range
+	if p.Z1.CheckInRange(public.Prover.N()) != 1 {
+		return false
+	}
 	return true
 }
 
